@@ -12,6 +12,12 @@
 //                       packets and are decoded again by the real frame decoder.
 //   c13.peer_adversary  real PeerIdRegistry fed by a scripted honest issuer; at every reachable
 //                       state every adversarial NEW_CONNECTION_ID of the catalogue is tried.
+//   c13.pathmgr         the consumer side once more, with the REAL `path::Manager<Server>` around
+//                       the real PeerIdRegistry (rebinding / migration schedules, path validation,
+//                       Retire Prior To bumps, loss of RETIRE_CONNECTION_ID); closes the blind spot
+//                       of the transcribed path-manager glue of c13.cid. See its own header below.
+//   c13.pathmgr_timer   the same plus the `Timer` op (PATH_CHALLENGE abandonment and the fallback
+//                       to the last validated path).
 //
 // The oracle is a plain-Rust bookkeeping of what was put on the wire plus rules transcribed from
 // RFC 9000 §5.1.1, §5.1.2, §19.15, §19.16 (quoted at each clause). It never asks the registries
@@ -128,6 +134,7 @@ struct Ncid {
 enum Decoded {
     Ncid(Ncid),
     Retire(u64),
+    Challenge([u8; 8]),
     Other,
 }
 
@@ -148,6 +155,7 @@ fn decode_one(raw: &[u8]) -> Result<Decoded, transport::Error> {
             token: *f.stateless_reset_token,
         }),
         Frame::RetireConnectionId(f) => Decoded::Retire(f.sequence_number.as_u64()),
+        Frame::PathChallenge(f) => Decoded::Challenge(*f.data),
         _ => Decoded::Other,
     })
 }
@@ -1497,6 +1505,797 @@ fn run_adv(tier: Tier, out: &mut Output) {
 }
 
 // =============================================================================================
+// family c13.pathmgr
+// =============================================================================================
+//
+// The consumer side of C13 with the REAL `path::Manager<endpoint::testing::Server>` (and the real
+// `PeerIdRegistry` inside it) in the loop, so that the glue the family `c13.cid` only transcribes
+// (`update_active_path`, `handle_connection_migration`, `on_new_connection_id`, the fallback to
+// the last validated path in `on_timeout`) is code under test here. The peer (client) is a
+// scripted honest issuer; the server is driven through the entry points the connection uses:
+//   datagram      `on_datagram_received` (+ the `local_connection_id` update that
+//                 `Path::on_process_local_connection_id` performs) + `on_processed_packet`
+//   NEW_CONNECTION_ID  encoded, decoded by the real decoder, `on_datagram_received` from the
+//                 client's current address, `on_new_connection_id`, `on_processed_packet(Probing)`
+//                 (NEW_CONNECTION_ID is a probing frame, RFC 9000 §9.1)
+//   PATH_RESPONSE `on_path_response` with the data of a PATH_CHALLENGE the manager really wrote
+//   transmit      what `ConnectionImpl::on_transmit` does in one round: one Normal-mode packet on
+//                 the active path (`active_path_mut().on_transmit` for PATH_CHALLENGE /
+//                 PATH_RESPONSE, then `Manager::on_transmit` for RETIRE_CONNECTION_ID, the order of
+//                 `transmission::application::Normal::transmit_control_data`), addressed with
+//                 `active_path().peer_connection_id`; then one PathValidationOnly packet per other
+//                 path in `paths_pending_validation()`
+//   lose / ack    `on_packet_loss` / `on_packet_ack` for packets that carried RETIRE frames
+//   timer         `on_timeout` at the latest armed timer (a long silence: every pending
+//                 PATH_CHALLENGE is abandoned)
+
+use crate::endpoint::testing::Server as PmConfig;
+use s2n_quic_core::{
+    connection::limits::ANTI_AMPLIFICATION_MULTIPLIER,
+    frame::path_validation,
+    inet::{DatagramInfo, ExplicitCongestionNotification, SocketAddress},
+    path::{migration, mtu, RemoteAddress},
+    recovery::RttEstimator,
+};
+
+type PmManager = crate::path::Manager<PmConfig>;
+type PmPath = crate::path::Path<PmConfig>;
+
+static X_PM_CLOSED: Mutex<BTreeSet<String>> = Mutex::new(BTreeSet::new());
+static X_PM_PROBE_TO_RETIRED: AtomicU64 = AtomicU64::new(0);
+static X_PM_STALE_ACTIVE_WITHOUT_REPLACEMENT: AtomicU64 = AtomicU64::new(0);
+
+#[derive(Clone, Copy, Debug)]
+struct PmCfg {
+    depth: usize,
+    /// client addresses (A, B[, C])
+    addrs: u8,
+    /// how often the client may switch to a fresh destination connection id
+    max_fresh: u8,
+    bag_cap: usize,
+    /// experimentation only: check the active path's id only when a packet is addressed with it
+    lazy: bool,
+    /// offer the `Timer` op (family c13.pathmgr_timer)
+    timer: bool,
+    wall: f64,
+}
+
+impl PmCfg {
+    fn json(&self) -> Json {
+        Json::obj()
+            .set("depth", self.depth)
+            .set("addrs", self.addrs)
+            .set("max_fresh", self.max_fresh)
+            .set("bag_cap", self.bag_cap)
+            .set("lazy", self.lazy)
+            .set("timer", self.timer)
+    }
+}
+
+#[derive(Clone, Copy, Debug, PartialEq, Eq)]
+enum Rpt {
+    /// Retire Prior To unchanged
+    Keep,
+    /// ... raised by one
+    Plus1,
+    /// ... equal to the new sequence number (replace everything)
+    Seq,
+}
+
+#[derive(Clone, Debug)]
+enum PmOp {
+    /// `rotate`: the server's `rotate_handshake_connection_id`; `warm`: the client has already
+    /// issued seq 1 and 2 and the resulting RETIRE frames were sent and acknowledged
+    Setup { rotate: bool, warm: bool },
+    /// non-probing packet from address `addr`; `fresh`: the client switches to its next
+    /// destination connection id first
+    Datagram { addr: u8, fresh: bool },
+    /// PATH_RESPONSE for the PATH_CHALLENGE last written for the path of address `addr`
+    Validate { addr: u8 },
+    Ncid(Rpt),
+    Transmit,
+    Lose(usize),
+    Ack(usize),
+    Timer,
+}
+
+#[derive(Clone, Debug, Hash)]
+struct PmPacket {
+    pn: u64,
+    dcid: Vec<u8>,
+    seqs: Vec<u64>,
+}
+
+#[derive(Clone, Debug, Hash, Default)]
+struct PmModel {
+    /// ids the client issued (index = sequence number), all delivered
+    issued: Vec<(Vec<u8>, [u8; 16])>,
+    /// largest Retire Prior To the client sent (= the server received)
+    rpt: u64,
+    /// sequence numbers the server wrote a RETIRE_CONNECTION_ID for
+    retire_written: BTreeSet<u64>,
+    /// ... and the client has seen (the packet was acknowledged)
+    client_knows_retired: BTreeSet<u64>,
+    /// sequence numbers ever observed as the destination id of some path
+    used: BTreeSet<u64>,
+    /// the address the client currently sends from, its current destination id
+    client_addr: u8,
+    client_dcid: u8,
+    /// PATH_CHALLENGE data last written per address
+    challenges: BTreeMap<u8, [u8; 8]>,
+    /// the active path holds an id that must not be used ever since `on_timeout` fell back to
+    /// the last validated path (only selects the clause name of what follows from it)
+    stale_since_fallback: bool,
+    closed: Option<String>,
+}
+
+struct PmSys {
+    cfg: PmCfg,
+    mgr: Option<PmManager>,
+    buf: OutgoingFrameBuffer,
+    rnd: random::testing::Generator,
+    m: PmModel,
+    packets: Vec<PmPacket>,
+    t0: Timestamp,
+    now: Timestamp,
+    // cached inside the panic guard
+    tx_interest: bool,
+    timer_useful: bool,
+}
+
+fn pm_addr(i: u8) -> RemoteAddress {
+    let a: std::net::SocketAddr = format!("127.0.0.{}:{}", 1 + i, 8001 + 1000 * i as u16).parse().unwrap();
+    RemoteAddress::from(SocketAddress::from(a))
+}
+fn pm_path_id(i: u8) -> s2n_quic_core::path::Id {
+    // Safety: only used to index paths the manager reported itself
+    unsafe { s2n_quic_core::path::Id::new(i) }
+}
+fn pm_local_id(n: u8) -> connection::LocalId {
+    lid(&make_id(0x5E, n as u64))
+}
+/// `name: Type { ... }` with balanced braces out of a Debug rendering
+fn debug_field<'a>(s: &'a str, start: &str) -> &'a str {
+    let Some(i) = s.find(start) else { return "" };
+    let bytes = s.as_bytes();
+    let mut depth = 0i32;
+    for j in i..bytes.len() {
+        match bytes[j] {
+            b'{' => depth += 1,
+            b'}' => {
+                depth -= 1;
+                if depth == 0 {
+                    return &s[i..=j];
+                }
+            }
+            _ => {}
+        }
+    }
+    &s[i..]
+}
+
+impl PmSys {
+    fn new(cfg: PmCfg) -> PmSys {
+        let t0 = clock::now();
+        let mut buf = OutgoingFrameBuffer::new();
+        buf.set_max_packet_size(Some(1200));
+        PmSys {
+            cfg,
+            mgr: None,
+            buf,
+            rnd: random::testing::Generator(123),
+            m: PmModel::default(),
+            packets: Vec::new(),
+            t0,
+            now: t0,
+            tx_interest: false,
+            timer_useful: false,
+        }
+    }
+
+    fn seq_of(&self, id: &[u8]) -> Option<u64> {
+        self.m.issued.iter().position(|(i, _)| i == id).map(|s| s as u64)
+    }
+
+    /// ids the server could switch to: issued, not asked to be retired, never used, not retired
+    fn unused_ids(&self) -> Vec<u64> {
+        (0..self.m.issued.len() as u64)
+            .filter(|s| *s >= self.m.rpt && !self.m.used.contains(s) && !self.m.retire_written.contains(s))
+            .collect()
+    }
+
+    /// (address index, path id, path) of every path the manager knows
+    fn paths(&self) -> Vec<(u8, u8)> {
+        let mgr = self.mgr.as_ref().unwrap();
+        let mut v = Vec::new();
+        for a in 0..self.cfg.addrs {
+            if let Some((id, _)) = mgr.path(&pm_addr(a)) {
+                v.push((a, id.as_u8()));
+            }
+        }
+        v
+    }
+
+    fn observe_used(&mut self) {
+        let ids: Vec<Vec<u8>> = {
+            let mgr = self.mgr.as_ref().unwrap();
+            self.paths().iter().map(|(_, p)| mgr[pm_path_id(*p)].peer_connection_id.as_bytes().to_vec()).collect()
+        };
+        for id in ids {
+            if let Some(s) = self.seq_of(&id) {
+                self.m.used.insert(s);
+            }
+        }
+    }
+
+    /// an error returned for honest input: tolerated (the connection closes, terminal state) only
+    /// when the peer really left the server without a spare id
+    fn on_error(&mut self, what: &str, code: String, spare_before: &[u64]) -> Result<(), Violation> {
+        //= RFC 9000 §5.1.2: an endpoint "MAY choose to treat having connection IDs in need of
+        //= retirement that exceed this limit [at least twice the active_connection_id_limit] as a
+        //= connection error of type CONNECTION_ID_LIMIT_ERROR"
+        // ids the server had to retire (or retired) and whose RETIRE the client has not seen yet
+        let retired_unacked = (0..self.m.issued.len() as u64)
+            .filter(|s| (*s < self.m.rpt || self.m.retire_written.contains(s)) && !self.m.client_knows_retired.contains(s))
+            .count();
+        if retired_unacked > 2 * B_ADVERTISED_LIMIT && code.starts_with("CONNECTION_ID_LIMIT_ERROR") {
+            self.m.closed = Some(format!("{}: {} with {} retirements unacknowledged", what, code, retired_unacked));
+            return Ok(());
+        }
+        ensure(spare_before.is_empty(), "c13.pathmgr.honest_error", || {
+            format!("{} failed with {} although the unused ids {:?} were available", what, code, spare_before)
+        })?;
+        self.m.closed = Some(format!("{}: {}", what, code));
+        Ok(())
+    }
+
+    fn datagram_info(&self, dcid: connection::LocalId) -> DatagramInfo {
+        DatagramInfo {
+            timestamp: self.now,
+            payload_len: 1200,
+            ecn: ExplicitCongestionNotification::default(),
+            destination_connection_id: dcid,
+            destination_connection_id_classification: connection::id::Classification::Local,
+            source_connection_id: None,
+        }
+    }
+
+    /// `ConnectionImpl::on_datagram_received` as far as the path manager is concerned
+    fn receive(&mut self, addr: u8) -> Result<Option<u8>, Violation> {
+        let info = self.datagram_info(pm_local_id(self.m.client_dcid));
+        let mut publisher = event::testing::Publisher::no_snapshot();
+        let mgr = self.mgr.as_mut().unwrap();
+        let r = mgr.on_datagram_received(
+            &pm_addr(addr),
+            &info,
+            true,
+            &mut Default::default(),
+            &mut migration::allow_all::Validator,
+            &mut mtu::Manager::new(mtu::Config::default()),
+            &connection::Limits::default(),
+            &mut publisher,
+        );
+        match r {
+            Ok((id, _)) => {
+                // `Path::on_process_local_connection_id` (called by the packet space once the
+                // packet is authenticated)
+                if mgr[id].local_connection_id != info.destination_connection_id {
+                    mgr[id].local_connection_id = info.destination_connection_id;
+                }
+                Ok(Some(id.as_u8()))
+            }
+            Err(reason) => violation(
+                "c13.pathmgr.honest_error",
+                format!("datagram from address {} dropped: {:?}", addr, reason),
+            ),
+        }
+    }
+
+    fn datagram(&mut self, addr: u8, fresh: bool) -> Result<(), Violation> {
+        if fresh {
+            self.m.client_dcid += 1;
+        }
+        self.m.client_addr = addr;
+        let Some(path) = self.receive(addr)? else { return Ok(()) };
+        self.observe_used();
+        let spare = self.unused_ids();
+        let mut publisher = event::testing::Publisher::no_snapshot();
+        let r = self.mgr.as_mut().unwrap().on_processed_packet(
+            pm_path_id(path),
+            None,
+            path_validation::Probe::NonProbing,
+            &mut self.rnd,
+            &mut publisher,
+        );
+        if let Err(e) = r {
+            self.on_error("non-probing packet on another path", format!("{} ({})", e.code, e.reason), &spare)?;
+        }
+        Ok(())
+    }
+
+    fn ncid(&mut self, kind: Rpt) -> Result<(), Violation> {
+        let seq = self.m.issued.len() as u64;
+        let rpt = match kind {
+            Rpt::Keep => self.m.rpt,
+            Rpt::Plus1 => self.m.rpt + 1,
+            Rpt::Seq => seq,
+        };
+        let id = make_id(0xC1, seq);
+        let token = make_token(&id);
+        let raw = encode_frame(&frame::NewConnectionId {
+            sequence_number: VarInt::new(seq).unwrap(),
+            retire_prior_to: VarInt::new(rpt).unwrap(),
+            connection_id: &id,
+            stateless_reset_token: &token,
+        });
+        let f = match decode_one(&raw) {
+            Ok(Decoded::Ncid(f)) => f,
+            _ => return violation("c13.pathmgr.honest_error", format!("honest NEW_CONNECTION_ID {} does not decode", hex(&raw))),
+        };
+        self.m.issued.push((id, token));
+        self.m.rpt = self.m.rpt.max(rpt);
+        let spare = self.unused_ids();
+        let addr = self.m.client_addr;
+        let Some(path) = self.receive(addr)? else { return Ok(()) };
+        let mut publisher = event::testing::Publisher::no_snapshot();
+        // `handle_new_connection_id_frame`
+        let peer_id = pid(&f.id);
+        let token: stateless_reset::Token = f.token.into();
+        let r = self.mgr.as_mut().unwrap().on_new_connection_id(&peer_id, f.seq as u32, f.rpt as u32, &token, &mut publisher);
+        if let Err(e) = r {
+            return self.on_error("NEW_CONNECTION_ID", format!("{} ({})", e.code, e.reason), &spare);
+        }
+        self.observe_used();
+        let r = self.mgr.as_mut().unwrap().on_processed_packet(
+            pm_path_id(path),
+            None,
+            path_validation::Probe::Probing,
+            &mut self.rnd,
+            &mut publisher,
+        );
+        if let Err(e) = r {
+            return self.on_error("probing packet", format!("{} ({})", e.code, e.reason), &spare);
+        }
+        Ok(())
+    }
+
+    /// the honest client keeps at most 3 ids outstanding that it has neither asked to retire nor
+    /// seen retired (the server advertises active_connection_id_limit = 3)
+    fn ncid_allowed(&self, kind: Rpt) -> bool {
+        let seq = self.m.issued.len() as u64;
+        let rpt = match kind {
+            Rpt::Keep => self.m.rpt,
+            Rpt::Plus1 => self.m.rpt + 1,
+            Rpt::Seq => seq,
+        };
+        if rpt > seq {
+            return false;
+        }
+        // avoid offering the same frame twice
+        if (kind == Rpt::Plus1 || kind == Rpt::Seq) && rpt == self.m.rpt {
+            return false;
+        }
+        if kind == Rpt::Seq && rpt == self.m.rpt + 1 {
+            return false;
+        }
+        let outstanding = (0..=seq).filter(|s| *s >= rpt && !self.m.client_knows_retired.contains(s)).count();
+        outstanding <= B_ADVERTISED_LIMIT
+    }
+
+    fn drain(&mut self) -> Vec<(u64, Decoded)> {
+        self.buf.flush();
+        let mut v = Vec::new();
+        while let Some(f) = self.buf.pop_front() {
+            v.push((f.packet_nr.as_u64(), decode_one(&f.data).unwrap_or(Decoded::Other)));
+        }
+        v
+    }
+
+    fn transmit(&mut self) -> Result<(), Violation> {
+        let now = self.now;
+        // ---- the Normal-mode packet on the active path
+        let (active_addr, dcid, limited) = {
+            let mgr = self.mgr.as_ref().unwrap();
+            let p = mgr.active_path();
+            let addr = (0..self.cfg.addrs).find(|a| pm_addr(*a) == p.handle).unwrap_or(255);
+            (addr, p.peer_connection_id.as_bytes().to_vec(), p.at_amplification_limit())
+        };
+        if !limited {
+            {
+                let mgr = self.mgr.as_mut().unwrap();
+                let mut ctx = MockWriteContext::new(
+                    now,
+                    &mut self.buf,
+                    transmission::Constraint::None,
+                    transmission::Mode::Normal,
+                    endpoint::Type::Server,
+                );
+                mgr.active_path_mut().on_transmit(&mut ctx);
+                mgr.on_transmit(&mut ctx);
+            }
+            let frames = self.drain();
+            let mut seqs = Vec::new();
+            let mut pn = None;
+            let mut padded = false;
+            for (p, f) in frames {
+                pn = Some(p);
+                match f {
+                    Decoded::Retire(seq) => {
+                        //= RFC 9000 §19.16: "The sequence number specified in a
+                        //= RETIRE_CONNECTION_ID frame MUST NOT refer to the Destination
+                        //= Connection ID field of the packet in which the frame is contained."
+                        let own = self.m.issued.get(seq as usize).map_or(false, |(id, _)| *id == dcid);
+                        let clause = if self.m.stale_since_fallback {
+                            "c13.pathmgr.fallback_retire_own_dcid"
+                        } else {
+                            "c13.pathmgr.retire_own_dcid"
+                        };
+                        ensure(!own, clause, || {
+                            format!("RETIRE_CONNECTION_ID({}) written into a packet addressed with that very id {}", seq, hex(&dcid))
+                        })?;
+                        //= property: "it only retires peer IDs the peer actually issued"
+                        ensure((seq as usize) < self.m.issued.len(), "c13.pathmgr.retire_unissued", || {
+                            format!("RETIRE_CONNECTION_ID({}) but the peer only issued 0..{}", seq, self.m.issued.len())
+                        })?;
+                        self.m.retire_written.insert(seq);
+                        seqs.push(seq);
+                    }
+                    Decoded::Challenge(data) => {
+                        self.m.challenges.insert(active_addr, data);
+                        padded = true;
+                    }
+                    _ => {}
+                }
+            }
+            if let Some(pn) = pn {
+                // a packet is addressed with the active path's id
+                if self.m.stale_since_fallback {
+                    self.check_dcid_as("c13.pathmgr.fallback_uses_retired", "packet on the active path", &dcid)?;
+                } else {
+                    self.check_dcid("packet on the active path", &dcid)?;
+                }
+                self.mgr.as_mut().unwrap().active_path_mut().on_bytes_transmitted(if padded { 1200 } else { 60 });
+                if !seqs.is_empty() {
+                    self.packets.push(PmPacket { pn, dcid: dcid.clone(), seqs });
+                }
+            }
+        }
+        // ---- PathValidationOnly packets (`path_validation_only_transmission`)
+        let mut probes: Vec<(u8, Vec<u8>)> = Vec::new();
+        {
+            let mgr = self.mgr.as_mut().unwrap();
+            let mut pending = mgr.paths_pending_validation();
+            while let Some((id, mgr)) = pending.next_path() {
+                if id == mgr.active_path_id() || !mgr[id].can_transmit(now) {
+                    continue;
+                }
+                let mut ctx = MockWriteContext::new(
+                    now,
+                    &mut self.buf,
+                    transmission::Constraint::None,
+                    transmission::Mode::PathValidationOnly,
+                    endpoint::Type::Server,
+                );
+                mgr[id].on_transmit(&mut ctx);
+                mgr[id].on_bytes_transmitted(1200);
+                let addr = (0..self.cfg.addrs).find(|a| pm_addr(*a) == mgr[id].handle).unwrap_or(255);
+                probes.push((addr, mgr[id].peer_connection_id.as_bytes().to_vec()));
+            }
+        }
+        let frames = self.drain();
+        // one packet per probed path, in order
+        let mut by_pn: BTreeMap<u64, Vec<Decoded>> = BTreeMap::new();
+        for (p, f) in frames {
+            by_pn.entry(p).or_default().push(f);
+        }
+        for ((addr, dcid), (_, fs)) in probes.iter().zip(by_pn.into_iter()) {
+            for f in fs {
+                if let Decoded::Challenge(data) = f {
+                    self.m.challenges.insert(*addr, data);
+                }
+            }
+            // measured only: a probe on an idle path may still carry the id the path was
+            // created with
+            if self.dcid_problem(dcid).is_some() {
+                X_PM_PROBE_TO_RETIRED.fetch_max(1, Ordering::Relaxed);
+            }
+        }
+        Ok(())
+    }
+
+    /// why `id` must not be used as a destination id any more (None: fine)
+    //= RFC 9000 §5.1.2: "Upon receipt of an increased Retire Prior To field, the peer MUST stop
+    //= using the corresponding connection IDs"; "Sending a RETIRE_CONNECTION_ID frame indicates
+    //= that the connection ID will not be used again"
+    fn dcid_problem(&self, id: &[u8]) -> Option<String> {
+        match self.seq_of(id) {
+            None => Some("the peer never issued it".into()),
+            Some(s) if s < self.m.rpt => Some(format!("seq {} is below the largest Retire Prior To received ({})", s, self.m.rpt)),
+            Some(s) if self.m.retire_written.contains(&s) => Some(format!("RETIRE_CONNECTION_ID({}) was already sent", s)),
+            _ => None,
+        }
+    }
+
+    fn check_dcid(&self, what: &str, id: &[u8]) -> Result<(), Violation> {
+        self.check_dcid_as("c13.pathmgr.active_uses_retired", what, id)
+    }
+
+    fn check_dcid_as(&self, clause: &str, what: &str, id: &[u8]) -> Result<(), Violation> {
+        if let Some(why) = self.dcid_problem(id) {
+            let spare = self.unused_ids();
+            // "once a replacement was available": with no spare id the real manager closes the
+            // connection where it notices; where it does not, the state is only measured
+            if spare.is_empty() {
+                X_PM_STALE_ACTIVE_WITHOUT_REPLACEMENT.fetch_max(1, Ordering::Relaxed);
+                return Ok(());
+            }
+            return violation(
+                clause,
+                format!("{}: destination id {} must not be used ({}); unused ids available: {:?}", what, hex(id), why, spare),
+            );
+        }
+        Ok(())
+    }
+
+    fn timer_target(&self) -> Option<Timestamp> {
+        let mut latest: Option<Timestamp> = None;
+        self.mgr.as_ref().unwrap().for_each_timer(|t| {
+            if let Some(e) = t.next_expiration() {
+                latest = Some(latest.map_or(e, |l| l.max(e)));
+            }
+            Ok(())
+        });
+        latest
+    }
+
+    fn refresh(&mut self) {
+        let mgr = self.mgr.as_ref().unwrap();
+        let paths = self.paths();
+        let challenge_or_response = paths.iter().any(|(_, p)| {
+            let p = &mgr[pm_path_id(*p)];
+            p.has_transmission_interest()
+        });
+        self.tx_interest = mgr.peer_id_registry.has_transmission_interest() || challenge_or_response;
+        // time only matters for abandoning PATH_CHALLENGEs that are on the wire
+        self.timer_useful = paths.iter().any(|(a, p)| mgr[pm_path_id(*p)].is_challenge_pending() && self.m.challenges.contains_key(a))
+            && self.timer_target().map_or(false, |t| t > self.now);
+    }
+}
+
+impl Sys for PmSys {
+    type Op = PmOp;
+
+    fn ops(&self) -> Vec<PmOp> {
+        let mut v = Vec::new();
+        if self.mgr.is_none() {
+            for warm in [false, true] {
+                for rotate in [true, false] {
+                    v.push(PmOp::Setup { rotate, warm });
+                }
+            }
+            return v;
+        }
+        if self.m.closed.is_some() {
+            return v;
+        }
+        let mgr = self.mgr.as_ref().unwrap();
+        let active_addr = (0..self.cfg.addrs).find(|a| pm_addr(*a) == mgr.active_path().handle);
+        for addr in 0..self.cfg.addrs {
+            if Some(addr) != active_addr {
+                v.push(PmOp::Datagram { addr, fresh: false });
+            }
+        }
+        if self.m.client_dcid < self.cfg.max_fresh {
+            for addr in 0..self.cfg.addrs {
+                v.push(PmOp::Datagram { addr, fresh: true });
+            }
+        }
+        for (addr, p) in self.paths() {
+            if mgr[pm_path_id(p)].is_challenge_pending() && self.m.challenges.contains_key(&addr) {
+                v.push(PmOp::Validate { addr });
+            }
+        }
+        for kind in [Rpt::Keep, Rpt::Plus1, Rpt::Seq] {
+            if self.ncid_allowed(kind) {
+                v.push(PmOp::Ncid(kind));
+            }
+        }
+        if self.tx_interest && self.packets.len() < self.cfg.bag_cap {
+            v.push(PmOp::Transmit);
+        }
+        for i in 0..self.packets.len() {
+            v.push(PmOp::Lose(i));
+        }
+        for i in 0..self.packets.len() {
+            v.push(PmOp::Ack(i));
+        }
+        if self.cfg.timer && self.timer_useful {
+            v.push(PmOp::Timer);
+        }
+        v
+    }
+
+    fn step(&mut self, op: &PmOp) -> Result<(), Violation> {
+        match op {
+            PmOp::Setup { rotate, warm } => {
+                let id0 = make_id(0xC1, 0);
+                let token0 = make_token(&id0);
+                self.m.issued.push((id0.clone(), token0));
+                let mut path = PmPath::new(
+                    pm_addr(0),
+                    pid(&id0),
+                    pm_local_id(0),
+                    RttEstimator::new(Duration::from_millis(30)),
+                    Default::default(),
+                    false,
+                    mtu::Config::default(),
+                    ANTI_AMPLIFICATION_MULTIPLIER,
+                    0,
+                );
+                // the handshake validated the client's first address
+                path.on_handshake_packet();
+                let mut rnd = random::testing::Generator(123);
+                let registry = ConnectionIdMapper::new(&mut rnd, endpoint::Type::Server).create_server_peer_id_registry(
+                    InternalConnectionIdGenerator::new().generate_id(),
+                    pid(&id0),
+                    *rotate,
+                );
+                self.mgr = Some(PmManager::new(path, registry));
+                self.observe_used();
+                if *warm {
+                    self.ncid(Rpt::Keep)?;
+                    self.observe_used();
+                    self.ncid(Rpt::Keep)?;
+                    self.observe_used();
+                    self.refresh();
+                    if self.tx_interest {
+                        self.transmit()?;
+                        while !self.packets.is_empty() {
+                            let p = self.packets.remove(0);
+                            self.mgr.as_mut().unwrap().on_packet_ack(&pn_of(p.pn));
+                            self.m.client_knows_retired.extend(p.seqs);
+                        }
+                    }
+                }
+            }
+            PmOp::Datagram { addr, fresh } => self.datagram(*addr, *fresh)?,
+            PmOp::Validate { addr } => {
+                let data = self.m.challenges[addr];
+                let mut publisher = event::testing::Publisher::no_snapshot();
+                let _ = self.mgr.as_mut().unwrap().on_path_response(&frame::PathResponse { data: &data }, &mut publisher);
+            }
+            PmOp::Ncid(kind) => self.ncid(*kind)?,
+            PmOp::Transmit => self.transmit()?,
+            PmOp::Lose(i) => {
+                let p = self.packets.remove(*i);
+                self.mgr.as_mut().unwrap().on_packet_loss(&pn_of(p.pn));
+            }
+            PmOp::Ack(i) => {
+                let p = self.packets.remove(*i);
+                self.mgr.as_mut().unwrap().on_packet_ack(&pn_of(p.pn));
+                self.m.client_knows_retired.extend(p.seqs);
+            }
+            PmOp::Timer => {
+                let t = self.timer_target().expect("timer armed").max(self.now);
+                self.now = t;
+                let mut publisher = event::testing::Publisher::no_snapshot();
+                let r = self.mgr.as_mut().unwrap().on_timeout(t, &mut self.rnd, &mut publisher);
+                if let Err(e) = r {
+                    // no PATH_RESPONSE arrived and there is no validated path to fall back to:
+                    // the connection is discarded (RFC 9000 §9.3.2), nothing C13 constrains
+                    self.m.closed = Some(format!("on_timeout: {:?}", e));
+                }
+            }
+        }
+        if let Some(c) = &self.m.closed {
+            X_PM_CLOSED.lock().unwrap().insert(c.clone());
+            return Ok(());
+        }
+        self.observe_used();
+        self.refresh();
+        {
+            let dcid = self.mgr.as_ref().unwrap().active_path().peer_connection_id.as_bytes().to_vec();
+            let stale = self.dcid_problem(&dcid).is_some();
+            self.m.stale_since_fallback = stale && (matches!(op, PmOp::Timer) || self.m.stale_since_fallback);
+        }
+        if !self.cfg.lazy {
+            // the connection may address a packet to the active path's id at any time
+            let dcid = self.mgr.as_ref().unwrap().active_path().peer_connection_id.as_bytes().to_vec();
+            if matches!(op, PmOp::Timer) {
+                // own clause name: `on_timeout` reactivates the last validated path through
+                // `activate_path`, i.e. without the check `update_active_path` makes
+                self.check_dcid_as("c13.pathmgr.fallback_uses_retired", "active path after the fallback to the last validated path", &dcid)?;
+            } else {
+                self.check_dcid("active path", &dcid)?;
+            }
+        }
+        Ok(())
+    }
+
+    fn key(&self) -> u128 {
+        let Some(mgr) = self.mgr.as_ref() else { return 0 };
+        let all = format!("{:?}", mgr);
+        let reg = debug_field(&all, "peer_id_registry: PeerIdRegistry {");
+        let reg_own = reg.find("registered_ids").map(|i| &reg[i..]).unwrap_or(reg);
+        let tail = all.rfind(", active: ").map(|i| &all[i..]).unwrap_or("");
+        let mut paths = Vec::new();
+        for (addr, p) in self.paths() {
+            let path = &mgr[pm_path_id(p)];
+            let d = format!("{:?}", path);
+            paths.push((
+                addr,
+                p,
+                path.peer_connection_id.as_bytes().to_vec(),
+                path.local_connection_id.as_bytes().to_vec(),
+                (path.is_validated(), path.is_active(), path.is_activated(), path.is_peer_validated()),
+                (path.is_challenge_pending(), path.failed_validation(), path.is_response_pending(), path.at_amplification_limit()),
+                debug_field(&d, "challenge: Challenge {").to_string(),
+            ));
+        }
+        key128(&(
+            reg_own,
+            tail,
+            paths,
+            &self.m,
+            &self.packets,
+            self.now.saturating_duration_since(self.t0),
+            self.rnd.0,
+        ))
+    }
+
+    fn outcome(&self) -> u64 {
+        let (n_paths, active) = match self.mgr.as_ref() {
+            Some(mgr) => (self.paths().len() as u64, mgr.active_path_id().as_u8() as u64),
+            None => (0, 0),
+        };
+        n_paths
+            | active << 4
+            | (self.m.issued.len() as u64) << 8
+            | (self.m.retire_written.len() as u64) << 16
+            | (self.m.closed.is_some() as u64) << 24
+            | (self.m.used.len() as u64) << 32
+    }
+}
+
+fn pm_cfg(tier: Tier, timer: bool) -> PmCfg {
+    let lazy = std::env::var("VERIF_PATHMGR_LAZY").map_or(false, |v| v == "1");
+    let mut cfg = match tier {
+        Tier::Quick => PmCfg { depth: 8, addrs: 2, max_fresh: 1, bag_cap: 2, lazy, timer, wall: 25.0 },
+        // a third address costs a factor of ~8 at equal depth
+        Tier::Thorough if timer => PmCfg { depth: 10, addrs: 2, max_fresh: 1, bag_cap: 2, lazy, timer, wall: 150.0 },
+        Tier::Thorough => PmCfg { depth: 9, addrs: 3, max_fresh: 1, bag_cap: 2, lazy, timer, wall: 220.0 },
+    };
+    // experimentation only (not set by /verif/check)
+    if let Some(d) = std::env::var("VERIF_PATHMGR_DEPTH").ok().and_then(|d| d.parse().ok()) {
+        cfg.depth = d;
+    }
+    if let Some(d) = std::env::var("VERIF_PATHMGR_ADDRS").ok().and_then(|d| d.parse().ok()) {
+        cfg.addrs = d;
+    }
+    if let Some(d) = std::env::var("VERIF_PATHMGR_FRESH").ok().and_then(|d| d.parse().ok()) {
+        cfg.max_fresh = d;
+    }
+    cfg
+}
+
+fn run_pathmgr(tier: Tier, timer: bool, out: &mut Output) {
+    let cfg = pm_cfg(tier, timer);
+    X_PM_CLOSED.lock().unwrap().clear();
+    X_PM_PROBE_TO_RETIRED.store(0, Ordering::Relaxed);
+    X_PM_STALE_ACTIVE_WITHOUT_REPLACEMENT.store(0, Ordering::Relaxed);
+    let init = move || PmSys::new(cfg);
+    let family = if timer { "c13.pathmgr_timer" } else { "c13.pathmgr" };
+    let mut rep = explore(ENGINE, family, cfg.json(), &init, &Limits::depth(cfg.depth).wall(cfg.wall));
+    rep.extra.push(("x_close_reasons".into(), X_PM_CLOSED.lock().unwrap().iter().cloned().collect::<Vec<String>>().into()));
+    rep.extra.push(("x_probe_addressed_to_retired_id".into(), X_PM_PROBE_TO_RETIRED.load(Ordering::Relaxed).into()));
+    rep.extra.push((
+        "x_stale_active_id_without_replacement".into(),
+        X_PM_STALE_ACTIVE_WITHOUT_REPLACEMENT.load(Ordering::Relaxed).into(),
+    ));
+    out.push(rep);
+}
+
+// =============================================================================================
 // test entry points (run by /verif/check, see `run_mounted_engine`)
 // =============================================================================================
 
@@ -1589,4 +2388,48 @@ fn c13_peer_adversary() {
     let mut out = Output::new();
     run_adv(tier, &mut out);
     finish(out, "txmc_cid.c13_peer_adversary");
+}
+
+fn pathmgr_test(timer: bool) {
+    let tier = Tier::from_env();
+    quiet_panics();
+    let family = if timer { "c13.pathmgr_timer" } else { "c13.pathmgr" };
+    if let Some(req) = replay_requested(family) {
+        if let Some(hist) = req {
+            let mut cfg = pm_cfg(tier, timer);
+            if let Some(j) = std::env::var("VERIF_REPLAY").ok().and_then(|p| std::fs::read_to_string(p).ok()).and_then(|t| Json::parse(&t).ok()) {
+                // bounds of the run that produced the replay file (the op lists depend on them)
+                if let Some(c) = j.get("config") {
+                    if let Some(a) = c.get("addrs").and_then(|a| a.as_i128()) {
+                        cfg.addrs = a as u8;
+                    }
+                    if let Some(a) = c.get("max_fresh").and_then(|a| a.as_i128()) {
+                        cfg.max_fresh = a as u8;
+                    }
+                    if let Some(a) = c.get("bag_cap").and_then(|a| a.as_i128()) {
+                        cfg.bag_cap = a as usize;
+                    }
+                    cfg.lazy = matches!(c.get("lazy"), Some(Json::Bool(true)));
+                }
+            }
+            print_replay(replay_history(&move || PmSys::new(cfg), &hist));
+        }
+        let _ = std::panic::take_hook();
+        return;
+    }
+    let mut out = Output::new();
+    run_pathmgr(tier, timer, &mut out);
+    finish(out, if timer { "txmc_cid.c13_timer_pathmgr" } else { "txmc_cid.c13_pathmgr" });
+}
+
+/// Σ without `Timer`
+#[test]
+fn c13_pathmgr() {
+    pathmgr_test(false);
+}
+
+/// Σ with `Timer` (named so that the filter `verif_txmc_cid::c13_pathmgr` does not match it)
+#[test]
+fn c13_timer_pathmgr() {
+    pathmgr_test(true);
 }
